@@ -221,6 +221,10 @@ def leak_programs():
                       "measure-leaked-reset-fresh-gate-leaked": (["measure s;", "reset %s;" % d, "x(s);"], 2, 0),
                       "measure-fresh-then-gate-leaked": (["measure %s;" % d, "x(s);"], None, 1),
                       "measure-fresh-reset-leaked-gate-fresh": (["measure %s;" % d, "reset s;", "x(%s);" % d], 2, 1)}
+            # (seeds C06-3, C17-6) the leaked handle is measured AFTER its owner's qubit was released and then goes out of scope, so the index
+            # is free again: the next declaration that takes it is a never-measured qubit
+            lines = ["function main() -> void {", "qubit pad;", "{ " + lsrc + " x(s); measure s; }", fsrc, "h(%s);" % d, "measure %s;" % d, "echo(\"end\");", "}"]
+            yield ("leak:%s:%s:measured-after-release-then-out-of-scope" % (ln, fn), c03.LEAK_CLS + "\n".join(lines) + "\n", None, base + 2)
             for bn, (stmts, refuse_at, stale_at) in bodies.items():
                 lines = ["function main() -> void {", "qubit pad;", lsrc, fsrc] + stmts + ["echo(\"end\");", "}"]
                 yield ("leak:%s:%s:%s" % (ln, fn, bn), c03.LEAK_CLS + "\n".join(lines) + "\n",
